@@ -396,3 +396,104 @@ def reassembly_part(ctx):
         else:
             part.inconclusive.append(f'counterexample for {k} did not reproduce natively ({detail[:300]})')
     return part
+
+
+# ------------------------------------------------------------------------------ generic runner for spec modules whose workers return dict results
+
+def generic_part(ctx, name, units, worker, unit_name, unit_desc, replay_fn, bounds, outside, assumptions, budget=None, warm=True):
+    import multiprocessing as mp
+    part = Part(name, 'mirx (MIR symbolic executor) + z3 %s' % _z3v())
+    budget = budget or (900 if ctx.quick else 2400)
+    if warm and units:
+        worker((units[0], 600))         # dump / parse the MIR once before forking
+    with mp.get_context('fork').Pool(min(16, os.cpu_count() or 4)) as pool:
+        results = pool.map(worker, [(u, budget) for u in units], chunksize=1)
+    enc, mods = set(), set()
+    seen = {}
+    for r in results:
+        part.paths += max(r['paths'], 1 if r['violations'] else 0)
+        part.queries += r['stats'].get('queries', 0)
+        part.solver_time += r['stats'].get('solver_time', 0.0)
+        part.transitions += r['obligations']
+        enc |= set(r['encoded'])
+        mods |= set(r['models'])
+        for u in r['unsupported']:
+            part.inconclusive.append(u)
+        for v in r['violations']:
+            seen.setdefault(v['key'], v)
+        part.units.append({'name': unit_name(r['unit']), 'desc': unit_desc,
+                           'verdict': 'held' if not r['violations'] and not r['unsupported'] else ('violated' if r['violations'] else 'inconclusive'),
+                           'nontrivial': r['paths'] > 0,
+                           'detail': f'{r["paths"]} feasible paths, {r["obligations"]} obligations, {r["stats"].get("queries", 0)} solver queries, {r["wall"]:.1f}s',
+                           'samples': r['samples'][:1]})
+    part.functions = sorted(re.sub(r'<impl at [^>]*>', '<impl>', e) for e in enc if not e.startswith('const:'))
+    part.assumptions = ['std models used (mirx/models.py): ' + ', '.join(sorted(mods))] + list(assumptions)
+    part.bounds, part.outside = bounds, outside
+    for k, v in sorted(seen.items()):
+        rp = os.path.join(replay_dir(ctx.prop), 'mirx-' + hashlib.sha1(k.encode()).hexdigest()[:12] + '.json')
+        ok_native, detail = replay_fn(v)
+        if ok_native:
+            with open(rp, 'w') as f:
+                json.dump({'engine': 'mirx', 'property': ctx.prop, 'key': k, 'desc': v['desc'], 'values': v.get('values'), 'unit': v.get('unit'), 'native': detail}, f, indent=1)
+            part.violations.append({'key': k, 'desc': v['desc'][:400] + ' - confirmed natively: ' + detail[:200], 'replay': rp})
+        else:
+            part.inconclusive.append(f'counterexample for {k} did not reproduce natively ({detail[:300]})')
+    return part
+
+
+IPTABLE_REPLAY = r'''
+use super::*;
+fn lpm(entries: &[(u32, u32, u32)], a: u32) -> Option<u32> {
+    let mut best: Option<(u32, u32)> = None;
+    for (id, len, v) in entries {
+        let mask: u32 = if *len == 0 { 0 } else { (!0u32) << (32 - *len) };
+        if a & mask == *id { if best.map_or(true, |(l, _)| *len > l) { best = Some((*len, *v)); } }
+    }
+    best.map(|(_, v)| v)
+}
+fn put(entries: &mut Vec<(u32, u32, u32)>, id: u32, len: u32, v: u32) { entries.retain(|e| !(e.0 == id && e.1 == len)); entries.push((id, len, v)); }
+fn del(entries: &mut Vec<(u32, u32, u32)>, id: u32, len: u32) { entries.retain(|e| !(e.0 == id && e.1 == len)); }
+'''
+
+
+def iptable_native_replay(v):
+    from mirx import native
+    u = v['unit']
+    vals = v.get('values', {})
+    L = ['#[test]\nfn mirx_replay_0() {', '    println!("\\nREPLAY-BEGIN mirx_replay_0");', '    let mut t: IpTable<u32> = IpTable::new();', '    let mut e: Vec<(u32, u32, u32)> = Vec::new();']
+    for i, kind in enumerate(u['ops']):
+        addr = int(vals.get(f'addr{i}', 0x0a000000 + i)) & 0xffffffff
+        ln = min(32, int(vals.get(f'len{i}', 24))) if kind in ('add', 'remove') else 32
+        val = int(vals.get(f'val{i}', i + 1)) & 0xffffffff
+        L.append(f'    {{ let len: u32 = {ln}; let mask: u32 = if len == 0 {{ 0 }} else {{ (!0u32) << (32 - len) }}; let id = {addr}u32 & mask;')
+        if kind == 'add':
+            L.append(f'      t.add(Ipv4Net::new(Ipv4Address::from({addr}u32), Ipv4Mask::from_bitcount(len)), {val}); put(&mut e, id, len, {val}); }}')
+        elif kind == 'add_direct':
+            L.append(f'      t.add_direct(Ipv4Address::from({addr}u32), {val}); put(&mut e, id, len, {val}); }}')
+        elif kind == 'remove':
+            L.append(f'      t.remove(Ipv4Net::new(Ipv4Address::from({addr}u32), Ipv4Mask::from_bitcount(len))); del(&mut e, id, len); }}')
+        else:
+            L.append(f'      t.remove_direct(Ipv4Address::from({addr}u32)); del(&mut e, id, len); }}')
+    a = int(vals.get('lookup', 0)) & 0xffffffff
+    L.append(f'    let got = t.get_recipient(Ipv4Address::from({a}u32)); let want = lpm(&e, {a});')
+    L.append('    println!("OP 0 RESULT {}", if got == want { "AGREE".to_string() } else { format!("get_recipient = {:?}, longest-prefix reference = {:?}", got, want) });')
+    L.append('}')
+    out, rc = native.run_tests(IPTABLE_REPLAY + '\n'.join(L), append_to='src/ip_table.rs', test_filter='mirx_replay_0')
+    lines = native.op_lines(out)
+    if not lines:
+        return False, 'native replay did not run: ' + out[-400:]
+    return ('AGREE' not in lines[0]), lines[0]
+
+
+def iptable_part(ctx):
+    from mirx import ipspec
+    return generic_part(
+        ctx, 'iptable-vs-lpm-reference', ipspec.table_units(ctx.tier), ipspec.worker_table,
+        unit_name=lambda u: ' ; '.join(u['ops']) + ' ; get_recipient',
+        unit_desc='networks with symbolic address and symbolic mask length 0..=32, symbolic values; BTreeMap ordered by the real Obm::cmp MIR',
+        replay_fn=iptable_native_replay,
+        bounds='all sequences of 3 (quick) / 4 (thorough) operations over add, add_direct, remove, remove_direct starting with an add and containing >= 2 adds; addresses 32-bit symbolic, '
+               'mask lengths symbolic 0..=32 (nested / disjoint / duplicate keys are decided by the solver); lookup address symbolic; returned previous values of add/remove checked too',
+        outside='add_cidr / remove_cidr text forms (CIDR parsing is in the Kani part); tables built by more operations than the bound',
+        assumptions=['BTreeMap modelled as an association list kept sorted by the crate\'s own <Obm as Ord>::cmp MIR; insert replaces the value on Equal (std semantics)',
+                     'reference = declarative longest-prefix match over the keys alive after the operation sequence'])
